@@ -69,6 +69,8 @@ CHECKS = {
             "'never loops forever' is decided as bounded progress (operation budget); known panic sites are listed in known_findings.json by exact signature"),
 }
 
+MEGA = {"C01", "C02", "C03", "C04", "C05", "C08", "C09", "C10", "C12", "C13", "C14", "C16", "C17", "C18", "C19"}
+
 PENDING = {
 }
 
@@ -81,6 +83,9 @@ def main():
         if pid not in CHECKS:
             continue
         sec, tech, text, note = CHECKS[pid]
+        if pid in MEGA:
+            text += " In addition the shared mega workload (props/mega.rs: long model-driven histories mixing every command kind, re-prepares, rebind/reuse/long-data executions, chained responses, repeated headers, replies around 256 packets, megabyte commands, dead-id operations) is run under this property's own monitor" + (" over TLS against its plaintext twin." if pid == "C18" else ".")
+            tech += "; shared mega-history workload under the same oracle"
         checks.append({
             "property_id": pid,
             "quick_cmd": "./check %s quick" % pid,
